@@ -78,6 +78,28 @@ func main() {
 		os.Exit(cmdList(o))
 	case "replay":
 		os.Exit(cmdReplay(o, fs.Args()))
+	case "ssa":
+		e, err := load(o)
+		if err != nil {
+			fmt.Fprintln(os.Stderr, "load:", err)
+			os.Exit(2)
+		}
+		fn := e.funcs[o.fn]
+		if fn == nil {
+			fmt.Fprintln(os.Stderr, "no such function")
+			os.Exit(2)
+		}
+		for _, b := range fn.Blocks {
+			fmt.Printf("block %d (%s) preds=%v succs=%v\n", b.Index, b.Comment, blockIdx(b.Preds), blockIdx(b.Succs))
+			for _, ins := range b.Instrs {
+				name := ""
+				if v, ok := ins.(ssa.Value); ok {
+					name = v.Name() + " = "
+				}
+				fmt.Printf("\t%s%s\t; %s\n", name, ins.String(), e.posOf(ins.Pos()))
+			}
+		}
+		os.Exit(0)
 	default:
 		fmt.Fprintln(os.Stderr, "unknown command", cmd)
 		os.Exit(2)
@@ -265,4 +287,12 @@ func cmdCheck(o runOpts) int {
 	res := runProperty(e, o)
 	res.wall = time.Since(t0).Seconds()
 	return reportProperty(e, o, res)
+}
+
+func blockIdx(bs []*ssa.BasicBlock) []int {
+	var out []int
+	for _, b := range bs {
+		out = append(out, b.Index)
+	}
+	return out
 }
